@@ -18,7 +18,7 @@ from typing import Any
 from .. import cfg as cfgmod
 from .. import isa
 from ..core import REPO, AnalysisError, Ctx
-from ..pyfacts import PyEval, PyProgram, attr_chain, unparse
+from ..pyfacts import NotConst, PyEval, PyProgram, attr_chain, unparse
 from ..rsfacts import RustProgram, expr_text, pat_text, walk
 from ..rules import (def_root, rs_names_reaching, key_of, py_defs, py_guard_text, py_is_call, py_leaves, rs_defs, rs_guard_text, rs_is_call,
                      rs_is_mcall, rs_leaves)
@@ -93,14 +93,6 @@ def canonical_python(ctx: Ctx, py: PyProgram) -> None:
                 nd = g.node_of(site)
                 if nd is None or not g.dominates(m20[0], nd):
                     ctx.violation("C11.1/canonical", key_of(MEM_PY, qual, f"external:{unparse(site)[:50]}"), "external access not dominated by the 20-bit address reduction", f"{MEM_PY}:{site.lineno}")
-        # internal index form
-        d = py_defs(fn)
-        for x in ast.walk(fn):
-            if isinstance(x, ast.Subscript) and attr_chain(x.value) == "self.external_memory" and unparse(x.slice) == "internal_offset":
-                n += 1
-                off = [v for v in d.get("offset", []) if isinstance(v, ast.AST)]
-                if not (off and all(unparse(v).replace(" ", "") == f"({param}-0x100000)&0xFF".replace("0x100000", unparse(v).split("-")[1].split(")")[0].strip()) for v in off)) and not all(isinstance(v, ast.BinOp) and isinstance(v.op, ast.BitAnd) and PyEval(py, py.module(MEM_PY)).eval(v.right) == 0xFF for v in off):
-                    ctx.violation("C11.1/canonical", key_of(MEM_PY, qual, "internal offset"), "internal offset is not reduced to 8 bits", f"{MEM_PY}:{x.lineno}")
     ctx.instance("C11.1/canonical-python", "uses of the address in read_byte/write_byte dominated by the 24-bit reduction; external/bus accesses by the 20-bit one", n, 30)
 
 
@@ -186,24 +178,69 @@ def partition(ctx: Ctx, py: PyProgram, rs: RustProgram) -> None:
     ctx.need(isinstance(size, int), "PCE500Memory.__init__: external_memory size not found")
     spaces: dict[str, dict[str, tuple[int, int]]] = {}
     n = 0
+    cev = PyEval(py, mod)
+
+    def interval(e: ast.AST, d: dict, params: set, depth: int = 0) -> tuple[int, int] | None:
+        """Range of an index expression, through the function's own definitions (names play no role)."""
+        if depth > 6:
+            return None
+        if isinstance(e, ast.Call) and isinstance(e.func, ast.Name) and e.func.id == "len" and e.args and attr_chain(e.args[0]) == "self.external_memory":
+            return (size, size)
+        if isinstance(e, (ast.Name, ast.Call, ast.BinOp)) and not isinstance(e, ast.Name):
+            pass
+        try:
+            if any(isinstance(x_, ast.Call) for x_ in ast.walk(e)) or (isinstance(e, ast.Name) and e.id in d):
+                raise NotConst("not a module constant")
+            v = cev.eval(e)
+            if isinstance(v, int) and not isinstance(v, bool):
+                return (v, v)
+        except Exception:  # noqa: BLE001 - not a constant
+            pass
+        if isinstance(e, ast.Call) and isinstance(e.func, ast.Name) and e.func.id == "int" and len(e.args) == 1:
+            return interval(e.args[0], d, params, depth + 1)
+        if isinstance(e, ast.Call) and isinstance(e.func, ast.Name) and e.func.id == "len" and e.args and attr_chain(e.args[0]) == "self.external_memory":
+            return (size, size)
+        if isinstance(e, ast.Name):
+            if e.id in params:
+                return (0, 0xFFFFF)        # a CPU address after the reduction decided by C11.1/canonical
+            vs = [v for v in d.get(e.id, []) if isinstance(v, ast.AST)]
+            if not vs:
+                return None
+            rs_ = [interval(v, d, params, depth + 1) for v in vs]
+            if any(r is None for r in rs_):
+                return None
+            return (min(r[0] for r in rs_), max(r[1] for r in rs_))
+        if isinstance(e, ast.BinOp):
+            if isinstance(e.op, ast.BitAnd):
+                for x in (e.right, e.left):
+                    r = interval(x, d, params, depth + 1)
+                    if r is not None and r[0] == r[1] and r[0] >= 0:
+                        return (0, r[0])
+                return None
+            l, r = interval(e.left, d, params, depth + 1), interval(e.right, d, params, depth + 1)
+            if l is None or r is None:
+                return None
+            if isinstance(e.op, ast.Add):
+                return (l[0] + r[0], l[1] + r[1])
+            if isinstance(e.op, ast.Sub):
+                return (l[0] - r[1], l[1] - r[0])
+        return None
     for qual in ("PCE500Memory.read_byte", "PCE500Memory.write_byte"):
         fn = py.func(MEM_PY, qual)
         d = py_defs(fn)
+        params = {a_.arg for a_ in fn.args.args}
         for x in ast.walk(fn):
-            if isinstance(x, ast.Subscript) and attr_chain(x.value) == "self.external_memory":
+            if isinstance(x, ast.Subscript) and attr_chain(x.value) == "self.external_memory" and not isinstance(x.slice, ast.Slice):
                 n += 1
-                idx = unparse(x.slice)
-                if idx == "internal_offset":
-                    forms = [v for v in d.get("internal_offset", []) if isinstance(v, ast.AST)]
-                    ctx.need(forms, "internal_offset definition not found")
-                    lo = hi = None
-                    for f in forms:
-                        txt = unparse(f).replace(" ", "")
-                        ctx.need(txt == "len(self.external_memory)-256+offset", f"internal_offset has unexpected form {txt}")
-                        lo, hi = size - 256 + 0, size - 256 + 0xFF
-                    spaces.setdefault("self.external_memory", {})["internal"] = (lo, hi)
-                else:
-                    spaces.setdefault("self.external_memory", {})["external"] = (0, 0xFFFFF)
+                iv = interval(x.slice, d, params)
+                ctx.need(iv is not None, f"{qual}: range of the index `{unparse(x.slice)}` of external_memory not evaluable")
+                # an index built from the array's own length is the internal window; an index that is the CPU address is the external space
+                derived_from_len = any(isinstance(c, ast.Call) and isinstance(c.func, ast.Name) and c.func.id == "len" for v in ([x.slice] + [w for w in d.get(unparse(x.slice), []) if isinstance(w, ast.AST)]) for c in ast.walk(v))
+                kind = "internal" if derived_from_len else "external"
+                if kind == "internal" and not (size - 256 <= iv[0] and iv[1] <= size - 1):
+                    ctx.violation("C11.1/canonical", key_of(MEM_PY, qual, "internal offset"), f"the internal-memory index ranges over {iv[0]:#x}..{iv[1]:#x}, outside the 256-byte window {size - 256:#x}..{size - 1:#x}: the internal offset is not reduced to 8 bits", f"{MEM_PY}:{x.lineno}")
+                cur = spaces.setdefault("self.external_memory", {}).get(kind)
+                spaces["self.external_memory"][kind] = iv if cur is None else (min(cur[0], iv[0]), max(cur[1], iv[1]))
     # any separate internal array?
     for arr, sp in spaces.items():
         if "internal" in sp and "external" in sp:
@@ -307,17 +344,23 @@ def read_only(ctx: Ctx, py: PyProgram, rs: RustProgram) -> None:
     # Python: default external store dominated by `write_result is None`; overlay data store by `not overlay.read_only`
     wb = py.func(MEM_PY, "PCE500Memory.write_byte")
     g = cfgmod.build_py(wb, "write_byte")
+    # the local that holds the overlay bus verdict is identified by its definition (a call of self._bus.write), not by its name
+    verdicts = {t.id for a in ast.walk(wb) if isinstance(a, ast.Assign) and py_is_call(a.value, "self._bus.write") for t in a.targets if isinstance(t, ast.Name)}
+
+    def _unhandled(a: Any, pol: bool) -> bool:
+        # established on this path: verdict is None  (`v is not None` false, or `v is None` true)
+        if not (isinstance(a, ast.Compare) and len(a.ops) == 1 and isinstance(a.left, ast.Name) and a.left.id in verdicts and isinstance(a.comparators[0], ast.Constant) and a.comparators[0].value is None):
+            return False
+        return (isinstance(a.ops[0], ast.IsNot) and not pol) or (isinstance(a.ops[0], ast.Is) and pol)
     for st in ast.walk(wb):
         if isinstance(st, ast.Assign) and any(isinstance(t, ast.Subscript) and attr_chain(t.value) == "self.external_memory" and unparse(t.slice) == "address" for t in st.targets):
             n += 1
             gs = g.guards_of(g.node_of(st))
-            ok = any(isinstance(a, ast.AST) and unparse(a) == "write_result is not None" and not pol for a, pol, _o in gs)
+            ok = any(_unhandled(a, pol) for a, pol, _o in gs)
             if not ok:
                 ctx.violation("C11.4/read-only", key_of(MEM_PY, "PCE500Memory.write_byte", "external_memory[address] = value"), "the default external store is reachable without consulting the overlay bus (read-only overlays would be bypassed)", f"{MEM_PY}:{st.lineno}", guards=[py_guard_text(q) for q in gs])
-    d = py_defs(wb)
-    wr = [v for v in d.get("write_result", []) if isinstance(v, ast.AST)]
     n += 1
-    if not (len(wr) == 1 and py_is_call(wr[0], "self._bus.write")):
+    if len(verdicts) != 1:
         ctx.violation("C11.4/read-only", key_of(MEM_PY, "PCE500Memory.write_byte", "write_result"), "write_result is not the overlay bus verdict", f"{MEM_PY}:{wb.lineno}")
     wo = py.func(BUS_PY, "MemoryBus._write_to_overlay")
     g = cfgmod.build_py(wo, "_write_to_overlay")
